@@ -34,7 +34,7 @@ func (p *bufferedPacketConn) SetWriteDeadline(t time.Time) error { return nil }
 func (p *bufferedPacketConn) ReadFrom(b []byte) (int, net.Addr, error) {
 	// will lock and wait
 	buf := <-p.serverChan
-	n := copy(b[:cap(b)], buf)
+	n := copy(b, buf)
 	return n, nil, nil
 }
 
@@ -61,8 +61,7 @@ func TestReadAndDiscardLoop(conn net.PacketConn) error {
 			return nil
 		}
 
-		buf = buf[:n]
-		ether := Ether(buf)
+		ether := Ether(buf[:n])
 		if err := ether.IsValid(); err != nil {
 			s := fmt.Sprintf("error ether bytes=%d client packet %s", n, ether)
 			panic(s)
